@@ -37,6 +37,13 @@ theorem generated_invalidation :
     Generated.isOnKittyCached = false ∧
     Generated.enableQueriesInvalidates = ["get_fg_bg_colors", "get_terminal_name_version"] := by decide
 
+/-- the three toggles do their steps in the race-free order *write the flag, take the lock, clear,
+    release* (read off their AST), and reach the cache through `utils.<name>` at call time (not
+    through names bound at import time, which `_process_start_wrapper` would orphan) -/
+theorem generated_toggle_order :
+    Race.decode Generated.swapOnSteps = Race.canonical ∧ Race.decode Generated.swapOffSteps = Race.canonical ∧
+    Race.decode Generated.qOnSteps = Race.canonical ∧ Generated.togglesUseUtilsGlobals = true := by decide
+
 /-! ## fresh -/
 
 /-- FRESH (cell size).  After every history whose resizes are real windows and which — together
@@ -110,6 +117,7 @@ theorem fixed_snapshot (T : Term) (s : St) (r : RatioVal) (h : List Op)
           obtain ⟨c, hc⟩ := tscCall_frame s.toCore
           simp only [step, St.lift, hc]; exact hs
         | probe a => simp only [step, St.lift, probeCall]; split <;> exact hs
+        | tscRaise => simp only [step, St.lift, tscRaiseCall_state]; exact hs
         | swapOn => simp only [step]; split <;> exact hs
         | swapOff => simp only [step]; split <;> exact hs
         | qOn => simp only [step, qOnCore]; split <;> exact hs
@@ -308,12 +316,82 @@ theorem tsc_fresh (T : Term) (w0 : Win) (h : List Op) (hw : w0.ok) (hr : resizes
     (∀ v, s.tsc = some (v, (s.win.cols, s.win.rows)) → (tscCall s).2.2 = []) := by
   rw [tscProviso_append] at hp
   have hI := inv_reach false true T w0 h hw hr (fun h => by cases h) (fun _ => hp.1)
-  have hpa := hp.2.1 rfl
+  have hpa := hp.2.1 (Or.inl rfl)
   generalize (exec T (St.init w0) h) = s at hI hpa
   refine ⟨?_, ?_⟩
   · rw [(tscCall_spec false true T s.toCore _ _ hI rfl hpa).2]
     simp [tscCall, Core.fresh]
   · intro v hv; simp [tscCall, hv]
+
+/-- …including bodies that raise: for every history (raising calls included) under the probe's
+    proviso, a call whose body raises leaves the memo exactly as it was, and it either raises —
+    only when the body had to run (nothing memoized for the current size) — or returns the fresh
+    value for the current window.  (`tsc_fresh` above already ranges over histories that
+    contain raising calls.) -/
+theorem tsc_fresh_raising (T : Term) (w0 : Win) (h : List Op) (hw : w0.ok) (hr : resizesOk h)
+    (hp : tscProviso T (St.init w0) none (h ++ [.tscRaise])) :
+    let s := (exec T (St.init w0) h).toCore
+    (tscRaiseCall s).1 = s ∧
+    (((tscRaiseCall s).2.1 = .err .runtimeError ∧ (tscRaiseCall s).2.2 = [.bTsc] ∧
+        ∀ v, s.tsc ≠ some (v, (s.win.cols, s.win.rows))) ∨
+     ((tscRaiseCall s).2.1 = (tscCall s.fresh).2.1 ∧ (tscRaiseCall s).2.2 = [])) := by
+  rw [tscProviso_append] at hp
+  have hI := inv_reach false true T w0 h hw hr (fun h => by cases h) (fun _ => hp.1)
+  have hpa := hp.2.1 (Or.inr rfl)
+  generalize (exec T (St.init w0) h) = s at hI hpa
+  refine ⟨tscRaiseCall_state _, ?_⟩
+  rcases hI.tsc rfl with hn | ⟨l, hg, ht⟩
+  · left; simp [tscRaiseCall, hn]
+  · by_cases hts : (s.win.cols, s.win.rows) = (l.cols, l.rows)
+    · right
+      have hl : l = s.win := by
+        apply hpa l hg
+        simp at hts; exact ⟨hts.1.symm, hts.2.symm⟩
+      subst hl
+      simp [tscRaiseCall, ht, tscCall, Core.fresh]
+    · left
+      simp only [tscRaiseCall, ht]
+      refine ⟨by simp [hts], by simp [hts], ?_⟩
+      intro v hv
+      simp at hv; exact hts (by rw [hv.2.1, hv.2.2])
+
+/-- TOGGLE RACE.  A toggle (towards flag value `n`, steps in the order the translator read off
+    the code) running against a `get_cell_size()` of another thread, from a cache that is empty or
+    fresh for the old setting: for **every** interleaving, once the toggle has finished the cache
+    is empty or was computed under the *current* flag — at every later moment too, so after both
+    have finished the next `get_cell_size()` is fresh. -/
+theorem toggle_race_fresh (n : Bool) (c0 : Option Bool) (hc0 : c0 = none ∨ c0 = some (!n))
+    (steps : List Nat) (hs : steps = Generated.swapOnSteps ∨ steps = Generated.swapOffSteps ∨ steps = Generated.qOnSteps)
+    (sched : List Race.Who) :
+    let s := Race.rrun (Race.decode steps) n (Race.RSt.init n c0) sched
+    s.pc = 4 → s.flag = n ∧ (s.cache = none ∨ s.cache = some s.flag) := by
+  have hd : Race.decode steps = Race.canonical := by
+    rcases hs with h | h | h <;> subst h
+    · exact generated_toggle_order.1
+    · exact generated_toggle_order.2.1
+    · exact generated_toggle_order.2.2.1
+  rw [hd]
+  have hI := Race.rinv_run n _ sched (Race.rinv_init n c0 hc0)
+  generalize Race.rrun Race.canonical n (Race.RSt.init n c0) sched = s at hI
+  dsimp only
+  intro hpc
+  obtain ⟨_, _, _, hf, _, hc⟩ := hI
+  rw [hpc] at hf hc
+  have hf' : s.flag = n := by simpa using hf
+  refine ⟨hf', ?_⟩
+  cases hcc : s.cache with
+  | none => left; rfl
+  | some c =>
+    right; rw [hcc] at hc
+    have : c = s.flag := by simpa using hc
+    rw [this]
+
+/-- the order matters: with *clear first, flag last* a reader in the gap re-fills the cache
+    under the old setting (the schedule the harness' interleaving search reproduces) -/
+theorem toggle_race_counterexample :
+    let s := Race.rrun [.lock, .clear, .unlock, .setFlag] true (Race.RSt.init true (some false))
+      [.T, .T, .T, .R, .R, .R, .R, .R, .T]
+    s.pc = 4 ∧ s.rpc = .done ∧ s.flag = true ∧ s.cache = some false := by decide
 
 /-- CACHED ONCE (concurrent first calls).  For every number of threads, every assignment of
     arguments and **every** interleaving of the steps *acquire / look up / run body /
